@@ -410,6 +410,10 @@ def render_hand_file(schema, ops, rng, header=True):
     """Render one hand-written migration file. Returns the text."""
     style = rng.choice(["plain", "comments", "pragmas", "spaced"])
     chunks = []
+    for op in ops:
+        if op.get("file_nolint") is not None:
+            # a file directive: first comment block of the file, detached from the statements by an empty line
+            chunks.append(("-- atlas:nolint %s" % op["file_nolint"]).rstrip() + "\n\n")
     if header and rng.random() < 0.4:
         chunks.append("-- written by hand (%s)\n-- do not edit\n\n" % style)
     stmts = []
@@ -426,9 +430,12 @@ def render_hand_file(schema, ops, rng, header=True):
             chunks.append("-- %s\n" % COMMENTS[op["op"]])
         elif style == "spaced" and chunks:
             chunks.append("\n")
-        for s in ss:
+        for k, s in enumerate(ss):
             if style == "spaced" and rng.random() < 0.2:
                 chunks.append("/* step; still the same migration */\n")
+            if k == 0 and op.get("nolint") is not None:
+                # a statement directive: a comment directly above the statement the diagnostic is reported on
+                chunks.append(("-- atlas:nolint %s" % op["nolint"]).rstrip() + "\n")
             chunks.append(s + ";\n")
     if needs_pragma:
         chunks.append("PRAGMA foreign_keys = on;\n")
@@ -673,12 +680,99 @@ def make_op(rng, schema, kind, writer, protect=(), target=None):
     raise ValueError(kind)
 
 
+def simple_destructive(rng, schema, protect, used):
+    """One destructive operation that is a single statement or a single canonical rebuild (its first statement is
+    the one lint reports on): DROP TABLE, ALTER TABLE .. DROP COLUMN of a column no index uses, rebuild without a column."""
+    names = [n for n in sorted(schema.tables) if n not in protect and n not in used and "new_" + n not in used]
+    rng.shuffle(names)
+    for n in names:
+        t = schema.tables[n]
+        free = [c.name for c in t.cols if c.gen is None and c.name != "id" and not any(c.name in i.cols for i in t.indexes)]
+        plain = [c.name for c in t.cols if c.gen is None and c.name != "id"]
+        choices = ["drop_table"] + (["drop_cols_alter"] if free else []) + (["drop_cols_rebuild"] if plain and "new_" + n not in schema.tables and "new_" + n not in used else [])
+        k = rng.choice(choices)
+        if k == "drop_table":
+            return {"op": "drop_table", "t": n}
+        if k == "drop_cols_alter":
+            return {"op": "drop_cols_alter", "t": n, "cols": [rng.choice(free)], "vonly": False}
+        return {"op": "drop_cols_rebuild", "t": n, "cols": [rng.choice(plain)], "vonly": False}
+    return None
+
+
+def nolint_arg(rng, op, form):
+    """Argument of an `-- atlas:nolint` directive for a destructive operation: bare, by code, by analyzer name, or a
+    code that does not apply to it (which excuses nothing)."""
+    right = "DS102" if op["op"] == "drop_table" else "DS103"
+    if form == "bare":
+        return ""
+    if form == "code":
+        return right
+    if form == "analyzer":
+        return "destructive"
+    return rng.choice([{"DS102": "DS103", "DS103": "DS102"}[right], "DS101", "BC102", "data_depend"])
+
+
+def make_nolint_ops(rng, schema, kind, protect=()):
+    """2-3 destructive operations on distinct tables with nolint directives on all / some / none (wrong code) of
+    them, or one file-level directive."""
+    cur = schema.clone()
+    ops, used = [], set()
+    for _ in range(rng.choice([2, 2, 3])):
+        op = simple_destructive(rng, cur, protect, used)
+        if op is None:
+            break
+        used |= {op["t"], "new_" + op["t"]}
+        ops.append(op)
+        apply_op(cur, op)
+    if len(ops) < 2 or not cur.tables:
+        return None
+    forms = ["bare", "code", "analyzer"]
+    if kind == "nolint_file":
+        form = rng.choice(forms + ["wrong"])
+        ops[0]["file_nolint"] = {"bare": "", "analyzer": "destructive", "code": rng.choice(["DS102", "DS103"]),
+                                 "wrong": rng.choice(["DS101", "BC102", "data_depend"])}[form]
+    elif kind == "nolint_all":
+        for op in ops:
+            op["nolint"] = nolint_arg(rng, op, rng.choice(forms))
+    elif kind == "nolint_wrong":
+        for op in ops:
+            if rng.random() < 0.7 or op is ops[0]:
+                op["nolint"] = nolint_arg(rng, op, "wrong")
+    else:  # nolint_some
+        k = rng.randint(1, len(ops) - 1)
+        chosen = rng.sample(range(len(ops)), k)
+        for j, op in enumerate(ops):
+            if j in chosen:
+                op["nolint"] = nolint_arg(rng, op, rng.choice(forms))
+            elif rng.random() < 0.25:
+                op["nolint"] = nolint_arg(rng, op, "wrong")
+    return ops
+
+
+def inject_nolint(text, rng):
+    """Annotate some (at least one, not all) of the reported-on destructive statements of an atlas-written file with a
+    statement-level nolint directive. Returns (text, number annotated, number of candidates)."""
+    stmts = split_sql(text)
+    _, _, groups = analyze_file(stmts)
+    inner = {g[3] for g in groups}
+    cands = [(s, "DS102") for i, s in enumerate(stmts) if s.kind == "drop_table" and i not in inner]
+    cands += [(stmts[g[2]], "DS103") for g in groups if g[5]]
+    if len(cands) < 2:
+        return text, 0, len(cands)
+    chosen = rng.sample(cands, rng.randint(1, len(cands) - 1))
+    for s, code in sorted(chosen, key=lambda x: -x[0].start):
+        arg = rng.choice(["", code, "destructive"])
+        text = text[:s.start] + ("-- atlas:nolint %s" % arg).rstrip() + "\n" + text[s.start:]
+    return text, len(chosen), len(cands)
+
+
 ATLAS_KINDS = ["add_table", "add_column", "add_index", "add_column_rebuild", "drop_table", "drop_col", "drop_col", "drop_virtual", "mixed", "mixed_big",
                "drop_vmix_before", "drop_vmix_after"]
 HAND_KINDS = ["add_table", "add_column", "add_index", "add_column_rebuild", "drop_table", "drop_col_alter", "drop_col_rebuild", "drop_col_rebuild",
               "drop_col_variant", "drop_virtual", "temp_table", "temp_table", "temp_column", "replace_table", "mixed", "mixed_additive_temp", "mixed_big",
               "readd_alter", "readd_rebuild", "recreate_table", "drop_vmix_before", "drop_vmix_after", "rebuild_intruder",
-              "rebuild_neighbor_before", "rebuild_neighbor_after0", "rebuild_neighbor_after1", "rename_drop", "rename_chain", "rename_first_rebuild"]
+              "rebuild_neighbor_before", "rebuild_neighbor_after0", "rebuild_neighbor_after1", "rename_drop", "rename_chain", "rename_first_rebuild",
+              "nolint_some", "nolint_all", "nolint_wrong", "nolint_file"]
 
 # step kinds forced into an evolution (one per evolution, cycling over the evolution number), so that every
 # run -- whatever the seed -- contains each of these shapes several times
@@ -686,7 +780,8 @@ FOCUS = [("readd_alter", "hand"), ("readd_rebuild", "hand"), ("recreate_table", 
          ("drop_vmix_before", "hand"), ("drop_vmix_after", "atlas"), ("drop_vmix_after", "hand"), ("rebuild_intruder", "hand"),
          ("rebuild_neighbor_before", "hand"), ("rebuild_neighbor_after0", "hand"), ("rebuild_neighbor_after1", "hand"),
          ("rebuild_then_drop", "atlas"), ("rename_drop", "hand"), ("rename_chain", "hand"), ("rename_first_rebuild", "hand"),
-         None, None, None]
+         ("nolint_some", "hand"), ("nolint_some", "atlas"), ("nolint_all", "hand"), ("nolint_wrong", "hand"), ("nolint_file", "hand"),
+         None]
 
 
 def op_label(op):
@@ -724,10 +819,11 @@ def gen_evolution(rng, nsteps=6, focus=None):
         apply_op(cur, op)
         ops.insert(rng.randint(0, len(ops)), op)
         protect = {target, "new_" + target}
-    if focus and (focus[0].startswith("rebuild_neighbor") or focus[0] == "rebuild_intruder"):
+    if focus and (focus[0].startswith("rebuild_neighbor") or focus[0] == "rebuild_intruder" or focus[0].startswith("nolint_")):
         # keep two tables (without new_ siblings) untouched until the focus step
         free = [n for n in sorted(cur.tables) if "new_" + n not in cur.tables and not (n.startswith("new_") and n[4:] in cur.tables)]
-        while len(free) < 2:
+        want = 3 if focus[0].startswith("nolint_") else 2
+        while len(free) < want:
             op = make_op(rng, cur, "add_table", writer)
             n = op["table"].name
             if n.startswith("new_") or "new_" + n in cur.tables:
@@ -735,8 +831,8 @@ def gen_evolution(rng, nsteps=6, focus=None):
             apply_op(cur, op)
             ops.append(op)
             free.append(n)
-        pair = rng.sample(free, 2)
-        target = tuple(pair)
+        pair = rng.sample(free, want)
+        target = tuple(pair) if want == 2 else None
         protect = set(pair) | {"new_" + n for n in pair}
     if focus and focus[0] == "rebuild_then_drop":
         # `migrate diff` plans tables in name order: a rebuild of `audit` (no indexes) directly followed by DROP TABLE `zones`
@@ -766,6 +862,24 @@ def gen_evolution(rng, nsteps=6, focus=None):
                 apply_op(schema, o)
             protect = set()
             continue
+        if stepno == fpos and focus[0].startswith("nolint_"):
+            fops = None
+            for _try in range(10):
+                fops = make_nolint_ops(rng, schema, focus[0] if focus[1] == "hand" else "nolint_plain")
+                if fops is not None and (focus[1] == "hand" or all(o["op"] != "drop_cols_alter" for o in fops)):
+                    break
+                fops = None
+            if fops is not None:
+                if focus[1] == "atlas":
+                    fops = [dict(o, op="drop_cols") if o["op"] == "drop_cols_rebuild" else o for o in fops]
+                    for o in fops:
+                        o.pop("nolint", None)
+                steps.append({"writer": focus[1], "ops": fops, "kind": focus[0], "focus": True, "inject": focus[1] == "atlas"})
+                for o in fops:
+                    apply_op(schema, o)
+                protect = set()
+                continue
+            fpos = stepno + 1 if stepno < nsteps else None
         if stepno == fpos:
             fop = None
             for _try in range(10):
@@ -786,7 +900,7 @@ def gen_evolution(rng, nsteps=6, focus=None):
             cur = schema.clone()
             ops = []
             if kind == "mixed":
-                pool = [k for k in kinds if not k.startswith("mixed")]
+                pool = [k for k in kinds if not k.startswith("mixed") and not k.startswith("nolint_")]
                 for k in rng.sample(pool, min(len(pool), rng.choice([2, 2, 3]))):
                     op = make_op(rng, cur, k, writer, protect=protect)
                     if op is not None and compatible(ops, op):
@@ -802,6 +916,10 @@ def gen_evolution(rng, nsteps=6, focus=None):
                     if op is not None and compatible(ops, op):
                         apply_op(cur, op)
                         ops.append(op)
+            elif kind.startswith("nolint_"):
+                ops = make_nolint_ops(rng, cur, kind, protect=protect) or []
+                for o in ops:
+                    apply_op(cur, o)
             elif kind == "mixed_additive_temp":
                 for k in rng.sample(["add_table", "add_column", "add_index", "temp_table", "temp_column"], 3):
                     op = make_op(rng, cur, k, writer, protect=protect)
@@ -1076,6 +1194,38 @@ def replay_facts(texts):
     """[facts_before_file_0, facts_after_file_0, facts_after_file_1, ...]"""
     recs = replay_files(texts)
     return [recs[0]["before"] if recs else {}] + [r["after"] for r in recs]
+
+
+NOLINT = re.compile(r"^--[ ]?atlas:nolint(?:[ \t]+(.*?))?[ \t]*$")
+
+
+def file_nolint(text):
+    """Rule lists of the file-level nolint directives: `-- atlas:nolint [names..]` lines in the comment block at the
+    very top of the file that is separated from the statements by an empty line. [] = bare (everything)."""
+    lines = text.split("\n")
+    i, rules = 0, []
+    while i < len(lines) and (lines[i].startswith("--") or lines[i].startswith("#")):
+        m = NOLINT.match(lines[i].strip())
+        if m:
+            rules.append((m.group(1) or "").split())
+        i += 1
+    if i == 0 or (i < len(lines) and lines[i].strip() != ""):
+        return []
+    return rules
+
+
+def stmt_nolint(text, stmt):
+    """Rule lists of the nolint directives in the comments directly above a statement."""
+    rules = []
+    for ln in text[stmt.region:stmt.start].split("\n"):
+        m = NOLINT.match(ln.strip())
+        if m:
+            rules.append((m.group(1) or "").split())
+    return rules
+
+
+def excused(code, rules):
+    return any(r == [] or code in r or "destructive" in r for r in rules)
 
 
 QUOTED = re.compile(r'"((?:[^"\\]|\\.)*)"')
